@@ -10,6 +10,7 @@ import (
 	"sort"
 	"time"
 
+	"github.com/lianxiangcloud/linkchain/config"
 	"github.com/lianxiangcloud/linkchain/libs/common"
 	"github.com/lianxiangcloud/linkchain/libs/crypto"
 	"github.com/lianxiangcloud/linkchain/libs/log"
@@ -23,6 +24,7 @@ func init() {
 		Property: "C20", Name: "evmrig", Level: "exploration",
 		Rule: "one run = one committed pre-state (origin, 3 contracts, beneficiary, absent account, token ids; balances, token balances, storage from the tape) and one scenario: " +
 			"(a) parent/child atomicity template (parent writes a marker and a log, calls the child by CALL/CALLCODE/DELEGATECALL/STATICCALL/CREATE/CREATE2 with value; the child performs tape-chosen effects - SSTOREs, LOG, value transfer, TRANSFERTOKEN, ISSUE, CREATE, a self-destructing grandchild - then fails by REVERT/INVALID/out-of-gas/stack underflow/bad jump, or succeeds as control), " +
+			"(a2) template children that are init codes RETURNing N bytes with N swept around config.MaxCodeSize (-1, 0, +1, +2, larger), (a3) multi-create: one call tree creates 2-3 contracts from different jump-carrying init codes of different lengths (jump targets from a small pc pool: real JUMPDEST / 0x5b inside PUSH data / other opcode), optionally deploying and calling a runtime code that jumps at the same pc with the other validity; the outcome flags of each child must not depend on which other children the tree creates or in which order, " +
 			"(b) stack-aware opcode soup over 3 mutually calling contracts (all opcode groups incl. the token opcodes, huge memory offsets, valid/invalid jumps, gas-guarded loops, truncated PUSH, self recursion, precompiles, absent accounts), (c) raw random bytes, (d) self-creating init code to the call depth limit. " +
 			"Entry through evm.Call / evm.UTXOCall / evm.Create built exactly as app/state_processor.go does. Fault = abort point: the gas limit is swept (every value up to the unconstrained consumption when that is small, else every top-level instruction boundary found by a tracer plus random limits), templates additionally sweep the child's gas over every instruction boundary of the child. " +
 			"Every (program, input, gas) is executed twice from the same committed state (once traced, once as in production) and must agree. non-trivial: >= 1 execution ended in a failing frame and >= 1 succeeded; distinct = hash of (programs, request, result signatures)",
@@ -117,7 +119,7 @@ func run(c *kernel.Ctx) {
 	if c.Tier == kernel.Thorough {
 		r.budget, maxLimits = 30_000_000, 700
 	}
-	scenario := cfg.Pick(45, 38, 12, 5)
+	scenario := cfg.Pick(40, 33, 10, 5, 12)
 	if c.Tier == kernel.Quick && scenario == 3 && !cfg.Bool(1, 3) {
 		scenario = 1
 	}
@@ -135,11 +137,26 @@ func run(c *kernel.Ctx) {
 	sc := "soup"
 
 	switch scenario {
+	case 4: // several creates with different jump-carrying init codes in one call tree
+		r.runMulti(ws, prog, swp)
+		return
 	case 0: // template
 		sc = "template"
 		r.tmpl = true
 		r.kind = cfg.Pick(5, 2, 2, 2, 3, 2)
 		sp := childSpec{sstores: cfg.Int(4), log: cfg.Bool(1, 2), sendTo: -1, fail: cfg.Pick(4, 3, 5, 2, 2, 2)}
+		if (r.kind == kindCreate || r.kind == kindCreate2) && cfg.Bool(2, 5) {
+			// the init code performs its effects and then RETURNs N bytes of
+			// runtime code, N around the code size limit: a create that is
+			// refused for its returned code is a failed frame like any other
+			ms := config.MaxCodeSize
+			sp.retSize = []int{ms - 1, ms, ms + 1, ms + 2, ms + 5000, 2 * ms, 65535}[cfg.Int(7)]
+			sp.fail = failReturns
+			if !cfg.Bool(1, 4) {
+				r.kind = kindCreate2 // CREATE forwards all gas: its failure takes the parent along
+			}
+			G0 = 9_000_000 // storing MaxCodeSize bytes costs 200 gas per byte
+		}
 		if cfg.Bool(1, 3) {
 			sp.sendTo = []int{roleEmpty, roleBenef, roleGrand}[cfg.Int(3)]
 		}
@@ -237,12 +254,12 @@ func run(c *kernel.Ctx) {
 	if r.tmpl {
 		r.sample["kind"] = kindNames[r.kind]
 		r.sample["child"] = fmt.Sprintf("%+v", struct {
-			SStores                             int
+			SStores, ReturnsCodeBytes           int
 			Log, Token, Issue, Create, SuicideG bool
 			SendTo                              int
 			Fail                                string
 			CallValue                           uint64
-		}{r.spec.sstores, r.spec.log, r.spec.token, r.spec.issue, r.spec.create, r.spec.suicideG, r.spec.sendTo, failNames[r.spec.fail], r.callVal})
+		}{r.spec.sstores, r.spec.retSize, r.spec.log, r.spec.token, r.spec.issue, r.spec.create, r.spec.suicideG, r.spec.sendTo, failNames[r.spec.fail], r.callVal})
 	}
 	for _, ro := range []int{roleParent, roleChild, roleGrand} {
 		code := ws.acct[ro].code
